@@ -1,6 +1,7 @@
 package gosym
 
 import (
+	"regexp"
 	"bytes"
 	"fmt"
 	"go/ast"
@@ -249,4 +250,38 @@ func splitTopLevel(s string) []string {
 	}
 	out = append(out, s[start:])
 	return out
+}
+
+// Yield points. harness/yields.txt lists source files ("<pkgdir> <file>") whose
+// mutex operations are routed through VerifLockOp (harness/rt.go.tmpl) in the
+// overlay copy: `x.mu.Lock()` becomes `VerifLockOp(&x.mu, "Lock")`, likewise Unlock,
+// RLock, RUnlock, with or without `defer`. VerifLockOp performs the real operation on
+// the real mutex and, when the outermost lock has just been released, calls
+// VerifYieldHook if a harness installed one: that is where a harness lets another
+// operation run, so an interleaving at lock-release granularity is executed
+// deterministically -- identically by the engine and by the native replay, which are
+// both built from this overlay. With no hook installed behaviour is unchanged.
+var lockCallRE = regexp.MustCompile(`([A-Za-z_][A-Za-z0-9_]*(?:\.[A-Za-z_][A-Za-z0-9_]*)*)\.(Lock|Unlock|RLock|RUnlock)\(\)`)
+
+func applyYields(ov map[string][]byte) error {
+	b, err := os.ReadFile(filepath.Join(VerifDir, "harness", "yields.txt"))
+	if err != nil {
+		return nil
+	}
+	for _, line := range strings.Split(string(b), "\n") {
+		f := strings.Fields(line)
+		if len(f) != 2 || strings.HasPrefix(f[0], "#") {
+			continue
+		}
+		p := filepath.Join(RepoDir, f[0], f[1])
+		src, ok := ov[p]
+		if !ok {
+			src, err = os.ReadFile(p)
+			if err != nil {
+				return fmt.Errorf("yields: %v", err)
+			}
+		}
+		ov[p] = lockCallRE.ReplaceAll(src, []byte(`VerifLockOp(&$1, "$2")`))
+	}
+	return nil
 }
